@@ -19,7 +19,8 @@ ASSUMPTIONS = ["trees outside the reference flattener's fragment (Unsupported) a
 
 
 def plan(tier):
-    return {"budget_s": 50 if tier == "quick" else 500, "profiles": ["R"], "min_evaluations": 1000}
+    return {"budget_s": 50 if tier == "quick" else 500, "profiles": ["R"], "min_evaluations": 1000,
+            "max_evaluations": 60000 if tier == "quick" else None}
 
 
 def canon_blocks(bl):
